@@ -198,6 +198,18 @@ func SharedCacheSeededSplit(format string, d int) *world.Config {
 	return c
 }
 
+// OverTall: histories that start from an empty root recording height 2 (see Config.StartHeight). The start is
+// hand-made (the library never hands out such a root; it stands in for versions older releases left too tall),
+// so only monitors that judge what is written and read back run it (C05, C08) - not C01 (emptying such a tree
+// again is refused by Delete: "tree with empty root but height 2", which I do not count against the library)
+// and not C04/C09 (their reference is the canonical tree).
+func OverTall(format string) *world.Config {
+	ot := world.UintCfg(2, ulist(1, 2, 3, 5, 6), 1, format, "none")
+	ot.StartHeight = 2
+	ot.Name = "starts-at-height-2/" + ot.Name
+	return ot
+}
+
 // TaggedCached: v1marshaler with a tagged custom marshaler and UnmarshalerUsesRegisteredTypes, big cache, depth d.
 // (Its keys are written in the marshaler's own tagged form: only monitors that do not decode stored keys with
 // the plain codec run it - C01, C02, C05, C08, C13.)
@@ -311,6 +323,14 @@ func C09(run *report.Run) {
 func c08Configs(thorough bool) []*world.Config {
 	cs := StructConfigs(thorough, []string{"none", "big"}, bothFormats)
 	cs = append(cs, TaggedCached(6, 2))
+	// over-tall trees (an empty root that records height 2; only layer-0 and layer-1 keys): top nodes that hold no
+	// entry, only a child
+	for _, f := range bothFormats {
+		ot := world.UintCfg(2, ulist(1, 2, 3, 5, 6), 1, f, "none")
+		ot.StartHeight = 2
+		ot.Name = "starts-at-height-2/" + ot.Name
+		cs = append(cs, ot)
+	}
 	nl := world.UintCfg(2, urange(1, 5), 1, ref.FormatMarshaler, "none")
 	nl.MarshalNL = true
 	nl.Name = "json.Encoder-marshaler/" + nl.Name
@@ -380,6 +400,7 @@ func C05ExtraConfigs(thorough bool) []*world.Config {
 	// the custom-marshaler decoder with a cache: nodes decoded from the store sit in the cache (kept root, cache
 	// emptied, loaded again) and are then written below
 	cs = append(cs, TaggedCached(6, 2))
+	cs = append(cs, OverTall(M))
 	// pointer-typed values, a nil pointer among them, in both formats
 	cs = append(cs, world.IntCfg(2, []int{1, 2, 3, 4}, []interface{}{&world.SVal{Asdf: "a", Q: true}, (*world.SVal)(nil)}, &world.SVal{}, M, "none"))
 	cs = append(cs, world.IntCfg(4, []int{1, 2, 3, 4, 8}, []interface{}{(*world.TVal)(nil), &world.TVal{Tags: []string{"y", "z"}}}, &world.TVal{}, B, "none"))
